@@ -300,6 +300,10 @@ func (w *world) url(q apiReq, n *cluster.Node, heldID int64) string {
 		v.Set("name", "sub/dir")
 	case "dotdot":
 		v.Set("name", "../../escaped")
+	case "dot":
+		v.Set("name", ".")
+	case "parent":
+		v.Set("name", "..")
 	}
 	idKey := "id"
 	if q.Path == "/tx" {
@@ -356,7 +360,7 @@ func classify(q apiReq) string {
 	if !okm {
 		return "malformed:method"
 	}
-	badName := q.Name == "absent" || q.Name == "empty" || q.Name == "slash" || q.Name == "dotdot"
+	badName := q.Name == "absent" || q.Name == "empty" || q.Name == "slash" || q.Name == "dotdot" || q.Name == "dot" || q.Name == "parent"
 	badID := q.ID == "absent" || q.ID == "garbage" || q.ID == "empty" || q.ID == "overflow" || q.ID == "zero"
 	switch q.Path {
 	case "/export":
@@ -712,7 +716,7 @@ func coqReq(q apiReq) string {
 	if meth == "" {
 		meth = "MOther"
 	}
-	name := map[string]string{"absent": "NmAbsent", "empty": "NmAbsent", "known": "NmKnown", "unknown": "NmUnknown", "slash": "NmBadPath", "dotdot": "NmBadPath"}[q.Name]
+	name := map[string]string{"absent": "NmAbsent", "empty": "NmAbsent", "known": "NmKnown", "unknown": "NmUnknown", "slash": "NmBadPath", "dotdot": "NmBadPath", "dot": "NmBadPath", "parent": "NmBadPath"}[q.Name]
 	id := map[string]string{"absent": "IdBad", "garbage": "IdBad", "empty": "IdBad", "overflow": "IdBad", "zero": "IdZero", "other": "IdOther", "neg": "IdOther", "held": "IdHeld"}[q.ID]
 	node := map[string]string{"absent": "NdBad", "garbage": "NdBad", "self": "NdSelf", "connected": "NdConnected", "unknown": "NdUnknown"}[q.Node]
 	role := map[string]string{"primary": "RPrimary", "replica": "RReplica", "noprimary": "RNoPrimary"}[q.Role]
